@@ -734,7 +734,7 @@ func main() {
 	case "search":
 		nHist, faultRs, dieEvery, envPer, par = 40, 3, 2, 3, 64
 	}
-	w := lib.NewWriter(args, "C07", "c07", "From KB Require Import Model.C07Cases.\n"+tab.Header(), "c07_case", "c07_check", "c07_oracle", 60)
+	w := lib.NewWriter(args, "C07", "c07", "From KB Require Import Model.C07Cases Model.C07Valid.\n"+tab.Header(), "c07_case", "c07_check_v", "c07_oracle", 20)
 
 	type caseJob struct {
 		h       *history
